@@ -371,6 +371,18 @@ fn history(d: &mut Dec, cx: &mut Cx, native: bool) -> Res {
     }
     let nops = d.u(1, 6);
     let mut ops: Vec<Op> = (0..nops).map(|k| gen_op_lim(d, 1 + k * if big { 3000 } else { 80 }, &top_box, lim)).collect();
+    // auxiliary word 4: in one history in eight every fill_contiguous stream is uniform (one colour), the
+    // case in which an adapter or target might take a solid-fill shortcut
+    if d.aux_u(4, 0, 7) == 7 {
+        for op in ops.iter_mut() {
+            if let Op::FillContiguous(_, stream) = op {
+                let c = stream.first().copied().unwrap_or(7);
+                for x in stream.iter_mut() {
+                    *x = c;
+                }
+            }
+        }
+    }
     // one history in 1024: the first fill gets an area more than 65536 px wide (at most 3 rows), extended
     // to the left or to the right, so that a clip cuts away more than 65535 colours of every row
     let huge = big && d.aux_u(6, 0, 127) == 127;
